@@ -301,7 +301,9 @@ def _check(pid: str, tier: str, seed: int, t0: float) -> int:
     # ---- evidence --------------------------------------------------------------
     from pyvc.evidence import write_evidence
     write_evidence(pid, tier, seed, keys, reports, obligations, standins,
-                   violations, stats_total, time.time() - t0, pkg, out_lines)
+                   violations, stats_total, time.time() - t0, pkg, out_lines,
+                   claimed=cfg.get("level", "proof"),
+                   claim_note=cfg.get("level_note", ""))
     n_ok = sum(1 for o in obligations if o.status == "proved")
     print(f"{pid} {tier}: {len(obligations)} obligations, {n_ok} discharged, "
           f"{len(refuted)} refuted, {len(undecided)} undecided; "
